@@ -143,6 +143,36 @@ def audit_proofs(pid):
     return dict(obligations=len(names), discharged=discharged, detail=detail, problems=problems, checker_cmd=cmd)
 
 
+
+COQCHK_ALLOWED_PREFIXES = ('Coq.', 'Flocq.', 'Coquelicot.', 'mathcomp.', 'Interval.')
+
+
+def coqchk(pid):
+    """Independent re-check of Props/<pid>.vo and everything it depends on (coqchk -o); returns
+    dict(ok, axioms, problems, cmd, wall_s).  Serialised: coqchk needs up to ~4 GB."""
+    cmd = 'timeout 2400 coqchk -silent -o -Q theories Epsie Epsie.Props.%s' % pid
+    t0 = time.time()
+    with Lock('coqchk.lock'):
+        rc, out = sh(cmd, cwd=COQ, timeout=2500)
+    res = dict(cmd='cd /verif/coq && ' + cmd, wall_s=round(time.time() - t0, 1), axioms=[], problems=[])
+    if rc != 0:
+        res['problems'].append('coqchk failed: ' + out.strip()[-500:])
+    m = re.search(r'\* Axioms:(.*?)\n\s*\n\* Constants/Inductives relying on type-in-type:(.*?)\n\s*\n\* Constants/Inductives relying on unsafe '
+                  r'\(co\)fixpoints:(.*?)\n\s*\n\* Inductives whose positivity is assumed:(.*?)\n', out + '\n\n', flags=re.S)
+    if not m:
+        res['problems'].append('cannot parse coqchk output: ' + out.strip()[-300:])
+    else:
+        axs = [a.strip() for a in m.group(1).strip().splitlines() if a.strip() and a.strip() != '<none>']
+        res['axioms'] = axs
+        for a in axs:
+            if a.startswith('Epsie.') or not a.startswith(COQCHK_ALLOWED_PREFIXES):
+                res['problems'].append('axiom outside the installed libraries: ' + a)
+        for name, g in (('type-in-type', m.group(2)), ('unsafe fixpoints', m.group(3)), ('assumed positivity', m.group(4))):
+            if g.strip() != '<none>':
+                res['problems'].append('%s: %s' % (name, g.strip()[:200]))
+    res['ok'] = not res['problems']
+    return res
+
 # ---------------------------------------------------------------------------
 # Coq literals
 def cfloat(x):
@@ -263,7 +293,7 @@ def write_replay(pid, payload):
     return path
 
 
-def finish(pid, tier, seed, t0, audit, out, assumptions=None):
+def finish(pid, tier, seed, t0, audit, out, assumptions=None, chk=None):
     """Decision procedure (DESIGN 2.5) + evidence file. Returns exit code."""
     known = [k for k in load_known() if k.get('property') == pid]
     open_flags = {k['flag']: k for k in known if k.get('status') == 'open'}
@@ -283,6 +313,8 @@ def finish(pid, tier, seed, t0, audit, out, assumptions=None):
         path = write_replay(pid, dict(property=pid, kind='failing-input', what=v.get('what'), replay=v.get('replay')))
         lines.append('VIOLATION property=%s replay=%s' % (pid, path))
         nviol += 1
+    if chk is not None and not chk.get('ok'):
+        audit['problems'].extend('coqchk: ' + p_ for p_ in chk['problems'])
     proof_broken = audit['discharged'] != audit['obligations'] or audit['obligations'] == 0 or audit['problems']
     if nviol == 0 and (proof_broken or out.corr_failures):
         payload = dict(property=pid, kind='no-failing-input-found')
@@ -311,6 +343,7 @@ def finish(pid, tier, seed, t0, audit, out, assumptions=None):
             correspondence_failures=len(out.corr_failures),
             exhaustive=bool(out.exhaustive),
             notes=out.notes,
+            coqchk=chk,
         ),
         assumptions=assumptions or [],
         wall_s=round(time.time() - t0, 2),
